@@ -136,11 +136,11 @@ pub fn property() -> Property {
             |_, i| DocCase { text: std::fs::read_to_string(["/repo/programs/chemist.bas", "/repo/programs/hamurabi.bas"][i as usize]).unwrap_or_default() },
             check,
         ),
-        prop_family("documents", 60_000, 2_000_000, |_| document().prop_map(|text| DocCase { text }), check),
-        prop_family("mutated-repo-programs", 3_000, 100_000, |_| mutated_repo_program().prop_map(|text| DocCase { text }), check),
+        prop_family("documents", 150_000, 2_000_000, |_| document().prop_map(|text| DocCase { text }), check),
+        prop_family("mutated-repo-programs", 10_000, 100_000, |_| mutated_repo_program().prop_map(|text| DocCase { text }), check),
         prop_family(
             "atom-documents",
-            40_000,
+            150_000,
             1_000_000,
             |_| prop::collection::vec((0u8..40, atom_line(10)), 0..8).prop_map(|v| DocCase { text: v.into_iter().map(|(n, l)| format!("{} {}", n % 6 * 10, l)).collect::<Vec<_>>().join("\n") }),
             check,
